@@ -87,6 +87,24 @@ theorem srcVal_congr (w w1 : World α) (s : Src α) (h : ∀ b i, s.loc = some (
   | copyOf b i => simp only [srcVal]; rw [h b i rfl]
   | moveOf b i => simp only [srcVal]; rw [h b i rfl]
 
+/-- a write from a non-moving live source changes the target slot only -/
+theorem WroteFrom.same_of_nonmoving {c : Cfg} {w w' : World α} {blk idx : Nat} {s : Src α}
+    (hw : WroteFrom c w w' blk idx s) (hnm : s.moving c = false) (hlive : SrcLive w s) :
+    ∀ b i, (b, i) ≠ (blk, idx) → (w'.mem b)[i]? = (w.mem b)[i]? := by
+  intro b i hne
+  by_cases hl : s.loc = some (b, i)
+  · rw [hw.src b i hl hne, hnm]
+    simp only [Bool.false_eq_true, if_false]
+    obtain ⟨v, hv⟩ := hlive b i hl
+    rw [hv]
+    cases s with
+    | ext a => simp [Src.loc] at hl
+    | extMove a => simp [Src.loc] at hl
+    | value a => simp [Src.loc] at hl
+    | copyOf b' i' => simp [Src.loc] at hl; obtain ⟨h1, h2⟩ := hl; subst h1; subst h2; simp [srcVal, hv]
+    | moveOf b' i' => simp [Src.loc] at hl; obtain ⟨h1, h2⟩ := hl; subst h1; subst h2; simp [srcVal, hv]
+  · exact hw.rest b i hne hl
+
 /-- non-moving construction loop: on success the targets hold the sources' values and NOTHING else changed; on a throw
     the whole range [dfirst, dfirst+done+n) is raw again and nothing else changed -/
 theorem uninitGen_nonmoving_sat (c : Cfg) (dblk dfirst : Nat) : ∀ (srcs : List (Src α)) (done : Nat) (w : World α),
@@ -98,7 +116,7 @@ theorem uninitGen_nonmoving_sat (c : Cfg) (dblk dfirst : Nat) : ∀ (srcs : List
       (fun _ w' => Ctl w w' ∧
         (∀ k (h : k < srcs.length), (w'.mem dblk)[dfirst + done + k]? = some (.obj (srcVal w srcs[k]))) ∧
         (∀ b i, ¬ (b = dblk ∧ dfirst + done ≤ i ∧ i < dfirst + done + srcs.length) → (w'.mem b)[i]? = (w.mem b)[i]?))
-      (fun e w' => e = .elem ∧ Ctl w w' ∧
+      (fun e w' => (e = .elem ∧ ∃ s' ∈ srcs, s'.ticks c = true) ∧ Ctl w w' ∧
         (∀ i, dfirst ≤ i → i < dfirst + done + srcs.length → IsRaw w' dblk i) ∧
         (∀ b i, ¬ (b = dblk ∧ dfirst ≤ i ∧ i < dfirst + done + srcs.length) → (w'.mem b)[i]? = (w.mem b)[i]?))
   | [], done, w, _, _, _, _ => by
@@ -116,7 +134,7 @@ theorem uninitGen_nonmoving_sat (c : Cfg) (dblk dfirst : Nat) : ∀ (srcs : List
     have hfirst : (tryCatch (constructSrc c dblk (dfirst + done) s)
             (fun e => destroyRange c dblk dfirst done >>= fun _ => throwE e) w).sat
           (fun _ w1 => WroteFrom c w w1 dblk (dfirst + done) s)
-          (fun e w' => e = .elem ∧ Ctl w w' ∧
+          (fun e w' => (e = .elem ∧ ∃ s' ∈ s :: rest, s'.ticks c = true) ∧ Ctl w w' ∧
             (∀ i, dfirst ≤ i → i < dfirst + done + (s :: rest).length → IsRaw w' dblk i) ∧
             (∀ b i, ¬ (b = dblk ∧ dfirst ≤ i ∧ i < dfirst + done + (s :: rest).length) → (w'.mem b)[i]? = (w.mem b)[i]?)) := by
       refine sat_tryCatch hstep ?_
@@ -128,8 +146,8 @@ theorem uninitGen_nonmoving_sat (c : Cfg) (dblk dfirst : Nat) : ∀ (srcs : List
         unfold IsObj; rw [hm1]; exact this
       refine sat_bind (destroyRange_sat c dblk done dfirst w1 hobj1) (fun _ w2 h2 => ?_) (fun _ _ h => h.elim)
       obtain ⟨hc2, hr2, hrest2⟩ := h2
-      show e = .elem ∧ _
-      refine ⟨he, hc1.trans hc2, ?_, ?_⟩
+      show (e = .elem ∧ _) ∧ _
+      refine ⟨⟨he.1, s, by simp, he.2⟩, hc1.trans hc2, ?_, ?_⟩
       · intro i h1 h2
         by_cases hi : i < dfirst + done
         · exact hr2 i h1 hi
@@ -208,7 +226,7 @@ theorem uninitGen_nonmoving_sat (c : Cfg) (dblk dfirst : Nat) : ∀ (srcs : List
           rw [hrest2 b i (by intro ⟨h1, h2, h3⟩; exact hn ⟨h1, by omega, by simp; omega⟩)]
           exact hsame b i (by intro h; injection h with h1 h2; exact hn ⟨h1, by omega, by simp; omega⟩)
       · intro e w2 ⟨he, hc2, hr2, hrest2⟩
-        refine ⟨he, hw.ctl.trans hc2, ?_, ?_⟩
+        refine ⟨⟨he.1, by obtain ⟨s', hs', ht⟩ := he.2; exact ⟨s', by simp [hs'], ht⟩⟩, hw.ctl.trans hc2, ?_, ?_⟩
         · intro i h1 h2
           exact hr2 i h1 (by simp at h2; omega)
         · intro b i hn
@@ -261,7 +279,7 @@ theorem uninitGen_move_sat (c : Cfg) (hrm : c.realMove = true) (dblk dfirst b : 
         (∀ k, k < n → (w'.mem b)[i + k]? = some (.obj .husk)) ∧
         (∀ b' i', ¬ (b' = dblk ∧ dfirst + done ≤ i' ∧ i' < dfirst + done + n) → ¬ (b' = b ∧ i ≤ i' ∧ i' < i + n) →
             (w'.mem b')[i']? = (w.mem b')[i']?))
-      (fun e w' => e = .elem ∧ Ctl w w' ∧
+      (fun e w' => (e = .elem ∧ c.tMove = true) ∧ Ctl w w' ∧
         (∀ i', dfirst ≤ i' → i' < dfirst + done + n → IsRaw w' dblk i') ∧
         (∀ k, k < n → IsObj w' b (i + k)) ∧
         (∀ b' i', ¬ (b' = dblk ∧ dfirst ≤ i' ∧ i' < dfirst + done + n) → ¬ (b' = b ∧ i ≤ i' ∧ i' < i + n) →
@@ -284,7 +302,7 @@ theorem uninitGen_move_sat (c : Cfg) (hrm : c.realMove = true) (dblk dfirst b : 
     have hfirst : (tryCatch (constructSrc c dblk (dfirst + done) (.moveOf b i))
             (fun e => destroyRange c dblk dfirst done >>= fun _ => throwE e) w).sat
           (fun _ w1 => WroteFrom c w w1 dblk (dfirst + done) (.moveOf b i))
-          (fun e w' => e = .elem ∧ Ctl w w' ∧
+          (fun e w' => (e = .elem ∧ c.tMove = true) ∧ Ctl w w' ∧
             (∀ i', dfirst ≤ i' → i' < dfirst + done + (n+1) → IsRaw w' dblk i') ∧
             (∀ k, k < n+1 → IsObj w' b (i + k)) ∧
             (∀ b' i', ¬ (b' = dblk ∧ dfirst ≤ i' ∧ i' < dfirst + done + (n+1)) → ¬ (b' = b ∧ i ≤ i' ∧ i' < i + (n+1)) →
@@ -298,7 +316,7 @@ theorem uninitGen_move_sat (c : Cfg) (hrm : c.realMove = true) (dblk dfirst b : 
         unfold IsObj; rw [hm1]; exact this
       refine sat_bind (destroyRange_sat c dblk done dfirst w1 hobj1) (fun _ w2 h2 => ?_) (fun _ _ h => h.elim)
       obtain ⟨hc2, hr2, hrest2⟩ := h2
-      show e = .elem ∧ _
+      show (e = .elem ∧ _) ∧ _
       refine ⟨he, hc1.trans hc2, ?_, ?_, ?_⟩
       · intro i' h1 h2
         by_cases hi : i' < dfirst + done
@@ -447,6 +465,7 @@ structure Relocated (cfg : Cfg) (strong : Bool) (w w' : World α) (sblk sidx n d
            (w'.mem b)[i]? = (w.mem b)[i]?
 
 structure RelocFailed (cfg : Cfg) (strong : Bool) (w w' : World α) (sblk sidx n dblk didx : Nat) : Prop where
+  can  : (if movesFor cfg strong then cfg.tMove else (cfg.tCopy || cfg.tMove)) = true   -- the relocation has a fault point at all
   ctl  : Ctl w w'
   dst  : ∀ k, k < n → IsRaw w' dblk (didx + k)
   src  : ∀ k, k < n → IsObj w' sblk (sidx + k)
@@ -512,7 +531,18 @@ theorem uninitializedMove_sat (cfg : Cfg) (strong : Bool) (sblk sidx n dblk didx
         exact hrest sblk (sidx + k) (by
           intro ⟨h1, h2, h3⟩
           exact hdisj k (sidx + k - didx) hk (by omega) (by rw [h1]; congr 1; omega))
-      refine ⟨he, hc, ?_, ?_, fun _ => hkeep, ?_⟩
+      have hcan : (if movesFor cfg strong then cfg.tMove else (cfg.tCopy || cfg.tMove)) = true := by
+        rw [hmf]; simp only [Bool.false_eq_true, if_false]
+        obtain ⟨s', hs', ht⟩ := he.2
+        obtain ⟨k, hk, rfl⟩ := List.getElem_of_mem hs'
+        have hl := hloc k hk
+        cases hs : srcs[k] with
+        | ext a => rw [hs] at hl; simp [Src.loc] at hl
+        | extMove a => rw [hs] at hl; simp [Src.loc] at hl
+        | value a => rw [hs] at hl; simp [Src.loc] at hl
+        | copyOf b i => rw [hs] at ht; simp only [Src.ticks] at ht; simp [ht]
+        | moveOf b i => rw [hs] at ht; simp only [Src.ticks] at ht; simp [ht]
+      refine ⟨he.1, hcan, hc, ?_, ?_, fun _ => hkeep, ?_⟩
       · intro k hk; exact hr (didx + k) (by omega) (by omega)
       · intro k hk
         obtain ⟨v, hv'⟩ := hsrc k hk
@@ -538,7 +568,7 @@ theorem uninitializedMove_sat (cfg : Cfg) (strong : Bool) (sblk sidx n dblk didx
         · intro b i h1 h2
           exact hrest b i (by intro ⟨a, b', c'⟩; exact h1 ⟨a, by omega, by omega⟩) h2
       · intro e w' ⟨he, hc, hr, ho, hrest⟩
-        refine ⟨he, hc, fun k hk => hr (didx + k) (by omega) (by omega), ho, ?_, ?_⟩
+        refine ⟨he.1, by rw [hmf]; simpa using he.2, hc, fun k hk => hr (didx + k) (by omega) (by omega), ho, ?_, ?_⟩
         · intro h; rw [hmf] at h; cases h
         · intro b i h1 h2
           exact hrest b i (by intro ⟨a, b', c'⟩; exact h1 ⟨a, by omega, by omega⟩) h2
